@@ -1,0 +1,9 @@
+// SPDX-License-Identifier: MIT
+
+// Only built by external monitors (with -DFIBER_VERIF); not part of libfiber.
+
+#include "fiber_verif.h"
+
+#ifdef FIBER_VERIF
+fiber_verif_hook_t volatile fiber_verif_hook = 0;
+#endif
